@@ -1,4 +1,1147 @@
-//! oplog: not built yet.
-pub fn run(args: &vh_common::Args) {
-    vh_common::unknown(args)
+//! OpLog (C01, C03, C05 and the stream-level half of C04): `ingest_operation` and the `LogPrune`
+//! processor of p2panda-stream on a real `SqliteStore`, against spec/OpLog.
+//!
+//! * `replay`: every behaviour TLC exported from MC_OpLog (Submit / Ingest / Prune steps with the
+//!   expected result and the expected store after each step) is executed with real Ed25519 keys,
+//!   real headers and real SQLite.  Forgery classes of the spec are concretised by actual
+//!   mutation (see `World::concretise`).  Independently of the spec's expectation the properties
+//!   are evaluated on the implementation's own observables (`Judge`).
+//!   At a configurable subset of ingest steps the harness additionally *expands* the abstract
+//!   "tampered copy" of the spec into every single-field mutation and many single-bit flips of
+//!   the encoded header, signature and body (C01's byte-level quantifier): each must be rejected
+//!   and leave the store unchanged.
+//! * `record`: seeded random multi-author histories on the real code, one NDJSON event per spec
+//!   action, validated by Trace_OpLog.tla.
+use std::collections::{BTreeMap, BTreeSet, VecDeque};
+
+use p2panda_core::cbor::decode_cbor;
+use p2panda_core::{Body, Hash, Header, Operation, Signature, SigningKey, VerifyingKey};
+use p2panda_store::SqliteStore;
+use p2panda_store::logs::LogStore;
+use p2panda_store::operations::OperationStore;
+use p2panda_stream::Processor;
+use p2panda_stream::ingest::{IngestError, ingest_operation};
+use p2panda_stream::log_prune::{LogPrune, LogPruneArgs, LogPruneResult};
+use serde::{Deserialize, Serialize};
+use vh_common::{Args, Outcome, Rng, TraceWriter, Value, catch, json, read_ndjson, unknown};
+
+/// Header extensions of the harness world: the log the author wrote the operation for and the
+/// prune flag (signed together with the rest of the header, like the node's `Extensions`).
+#[derive(Clone, Debug, PartialEq, Eq, Serialize, Deserialize)]
+pub struct Ext {
+    pub log: String,
+    pub prune: bool,
+}
+
+pub type Op = Operation<Ext>;
+type Prune = LogPrune<SqliteStore, LogPruneArgs<VerifyingKey, String, u32>, String, Ext>;
+
+pub fn run(args: &Args) {
+    match args.mode.as_str() {
+        "replay" => replay(args),
+        "record" => record(args),
+        _ => unknown(args),
+    }
+}
+
+// ------------------------------------------------------------------------------------------
+// The concrete world
+
+/// `[a, l, seq, v]` id record of the spec -> flat key.
+fn idkey(v: &Value) -> String {
+    format!(
+        "{}|{}|{}|{}",
+        v["a"].as_str().unwrap_or("?"),
+        v["l"].as_str().unwrap_or("?"),
+        v["seq"].as_i64().unwrap_or(-9),
+        v["v"].as_str().unwrap_or("?")
+    )
+}
+
+fn mkid(a: &str, l: &str, seq: u32, v: &str) -> Value {
+    json!({"a": a, "l": l, "seq": seq, "v": v})
+}
+
+/// What the harness knows about a concrete operation it built (the *intended* abstract fields).
+#[derive(Clone, Debug)]
+pub struct Info {
+    pub key: String,
+    pub a: String,
+    pub l: String,
+    pub seq: u32,
+    pub prune: bool,
+    pub bl: Option<String>,
+    pub wf: bool,
+}
+
+pub struct World {
+    salt: String,
+    /// honest prune positions
+    pub prune: BTreeSet<(String, String, u32)>,
+    keys: BTreeMap<String, SigningKey>,
+    names: BTreeMap<VerifyingKey, String>,
+    honest: BTreeMap<(String, String, u32), Op>,
+    /// operation hash -> info of the operation with that hash
+    pub by_hash: BTreeMap<Hash, Info>,
+}
+
+impl World {
+    pub fn new(salt: String) -> World {
+        World {
+            salt,
+            prune: BTreeSet::new(),
+            keys: BTreeMap::new(),
+            names: BTreeMap::new(),
+            honest: BTreeMap::new(),
+            by_hash: BTreeMap::new(),
+        }
+    }
+
+    pub fn key(&mut self, name: &str) -> SigningKey {
+        if let Some(k) = self.keys.get(name) {
+            return k.clone();
+        }
+        let seed = Hash::digest(format!("vh-oplog/{}/{}", self.salt, name).as_bytes());
+        let k = SigningKey::from_bytes(seed.as_bytes());
+        self.keys.insert(name.to_string(), k.clone());
+        self.names.insert(k.verifying_key(), name.to_string());
+        k
+    }
+
+    pub fn vk(&mut self, name: &str) -> VerifyingKey {
+        self.key(name).verifying_key()
+    }
+
+    pub fn author_names(&self) -> Vec<String> {
+        self.keys.keys().cloned().collect()
+    }
+
+    pub fn name_of(&self, vk: &VerifyingKey) -> String {
+        self.names.get(vk).cloned().unwrap_or_else(|| format!("key:{}", vk.to_hex()))
+    }
+
+    fn body_for(a: &str, l: &str, s: u32) -> (Option<Body>, bool) {
+        // (payload the header commits to, is the body attached?)
+        match s % 3 {
+            0 => (Some(Body::new(format!("payload of {a}/{l}/{s}").as_bytes())), true),
+            1 => (None, false),
+            _ => (Some(Body::new(format!("withheld payload of {a}/{l}/{s}").as_bytes())), false),
+        }
+    }
+
+    /// The one honest operation of author `a` in log `l` at `s` (non-equivocating world).
+    pub fn honest(&mut self, a: &str, l: &str, s: u32) -> Op {
+        let k = (a.to_string(), l.to_string(), s);
+        if let Some(op) = self.honest.get(&k) {
+            return op.clone();
+        }
+        let backlink = if s == 0 { None } else { Some(self.honest(a, l, s - 1).hash) };
+        let sk = self.key(a);
+        let (payload, attached) = Self::body_for(a, l, s);
+        let prune = self.prune.contains(&k);
+        let mut header = Header {
+            version: 1,
+            verifying_key: sk.verifying_key(),
+            signature: None,
+            payload_size: payload.as_ref().map(|b| b.size()).unwrap_or(0),
+            payload_hash: payload.as_ref().map(|b| b.hash()),
+            seq_num: s,
+            backlink,
+            extensions: Ext { log: l.to_string(), prune },
+        };
+        header.sign(&sk);
+        let op = Operation {
+            hash: header.hash(),
+            header,
+            body: if attached { payload } else { None },
+        };
+        self.honest.insert(k, op.clone());
+        self.by_hash.insert(
+            op.hash,
+            Info {
+                key: format!("{a}|{l}|{s}|Honest"),
+                a: a.to_string(),
+                l: l.to_string(),
+                seq: s,
+                prune,
+                bl: if s == 0 { None } else { Some(format!("{a}|{l}|{}|Honest", s - 1)) },
+                wf: true,
+            },
+        );
+        op
+    }
+
+    /// Realises a forgery class of the spec by actual mutation of the honest operation `base`.
+    /// `param` is the class parameter (author name / sequence number), `tweak` varies the concrete
+    /// bytes (which signature bit, ...) without leaving the class.
+    pub fn concretise(&mut self, cls: &str, param: &str, base: &Op, tweak: u64) -> Op {
+        let mut h = base.header.clone();
+        let mut body = base.body.clone();
+        let author = self.name_of(&h.verifying_key);
+        match cls {
+            "Honest" => {}
+            "BadSig" => {
+                let mut sig = h.signature.expect("signed").to_bytes();
+                let bit = (tweak % 512) as usize;
+                sig[bit / 8] ^= 1 << (bit % 8);
+                h.signature = Some(Signature::from_bytes(&sig));
+            }
+            // signed by the claimed author, but malformed
+            "BadVersion" => {
+                h.version = if tweak % 2 == 0 { 2 } else { 0 };
+                h.sign(&self.key(&author));
+            }
+            "PayloadInfoInconsistent" => {
+                if h.payload_hash.is_some() {
+                    h.payload_size = 0;
+                } else {
+                    h.payload_size = 5;
+                }
+                h.sign(&self.key(&author));
+            }
+            "BacklinkSeqInconsistent" => {
+                if h.seq_num > 0 {
+                    h.backlink = None;
+                } else {
+                    h.backlink = Some(Hash::digest(b"a backlink at seq 0"));
+                }
+                h.sign(&self.key(&author));
+            }
+            "BodyMismatch" => {
+                body = Some(Body::new(b"this is not the body the header commits to"));
+            }
+            // header field changed, signature left as it was
+            "ClaimOtherAuthor" => h.verifying_key = self.vk(param),
+            "PruneFlipped" => h.extensions.prune = !h.extensions.prune,
+            "SeqChanged" => h.seq_num = param.parse().expect("seq param"),
+            "BacklinkChanged" => h.backlink = Some(Hash::digest(b"elsewhere")),
+            "ForgedPrune" => {
+                h.verifying_key = self.vk(param);
+                h.extensions.prune = true;
+                let mut rng = Rng::new(tweak ^ 0xF0F0);
+                let mut sig = [0u8; 64];
+                sig.copy_from_slice(&rng.bytes(64));
+                h.signature = Some(Signature::from_bytes(&sig));
+            }
+            // verifying key replaced AND re-signed by the attacker: a valid operation of the attacker
+            "Resigned" => {
+                let sk = self.key(param);
+                h.verifying_key = sk.verifying_key();
+                h.sign(&sk);
+            }
+            other => {
+                eprintln!("unknown forgery class {other}");
+                std::process::exit(2);
+            }
+        }
+        Operation { hash: h.hash(), header: h, body }
+    }
+
+    pub fn register(&mut self, op: &Op, info: Info) {
+        self.by_hash.insert(op.hash, info);
+    }
+}
+
+// ------------------------------------------------------------------------------------------
+// The implementation side: store, ingest, prune, projection
+
+#[derive(Clone, Debug, PartialEq, Eq, PartialOrd, Ord)]
+pub struct Row {
+    pub key: String,
+    pub a: String,
+    pub l: String,
+    pub seq: u32,
+    pub prune: bool,
+    pub hash: Hash,
+    pub backlink: Option<Hash>,
+}
+
+pub struct Impl {
+    pub store: SqliteStore,
+    prune: Prune,
+}
+
+#[derive(Clone, Copy, Debug, PartialEq, Eq)]
+pub enum Res {
+    Inserted,
+    AlreadyExists,
+    Rejected,
+}
+
+impl Res {
+    pub fn name(&self) -> &'static str {
+        match self {
+            Res::Inserted => "Inserted",
+            Res::AlreadyExists => "AlreadyExists",
+            Res::Rejected => "Rejected",
+        }
+    }
+}
+
+impl Impl {
+    pub async fn new() -> Impl {
+        let store = SqliteStore::temporary().await;
+        Impl { prune: LogPrune::new(store.clone()), store }
+    }
+
+    /// Empties the tables ingest writes to (one in-memory store is reused for many behaviours:
+    /// creating a store runs all migrations, which dominates the cost of a short behaviour).
+    pub async fn wipe(&self) -> Result<(), String> {
+        self.store
+            .execute(async |pool| {
+                sqlx::query("DELETE FROM operations_v1").execute(pool).await?;
+                sqlx::query("DELETE FROM topics_v1").execute(pool).await?;
+                Ok(())
+            })
+            .await
+            .map_err(|e| e.to_string())
+    }
+
+    /// `ingest_operation` as the node calls it: log id and prune flag are taken from the header's
+    /// extensions (streams/stream.rs:343-349).
+    pub async fn ingest(&self, op: &Op, log: &str) -> Result<Res, String> {
+        let log = log.to_string();
+        match ingest_operation(&self.store, op, &log, &String::from("topic"), op.header.extensions.prune).await {
+            Ok(true) => Ok(Res::Inserted),
+            Ok(false) => Ok(Res::AlreadyExists),
+            Err(IngestError::InvalidOperation(_)) => Ok(Res::Rejected),
+            Err(IngestError::StoreError(e)) => Err(e),
+        }
+    }
+
+    /// One event through the real `LogPrune` processor. `None` = `LogPruneArgs::Ignore`.
+    pub async fn log_prune(&self, args: Option<(VerifyingKey, String, u32)>) -> Result<Option<u64>, String> {
+        let input = match args {
+            Some((author, log_id, seq_num)) => LogPruneArgs::PruneEntriesUntil { author, log_id, seq_num },
+            None => LogPruneArgs::Ignore,
+        };
+        if let Err((_, e)) = self.prune.process(input).await {
+            return Err(e.to_string());
+        }
+        match self.prune.next().await {
+            Ok((_, LogPruneResult::Pruned { num_entries })) => Ok(Some(num_entries)),
+            Ok((_, LogPruneResult::Noop)) => Ok(None),
+            Err((_, e)) => Err(e.to_string()),
+        }
+    }
+
+    /// All stored entries of the given (author, log) pairs through `LogStore::get_log_entries`.
+    pub async fn project(&self, world: &World, authors: &[(String, VerifyingKey)], logs: &[String]) -> Result<BTreeSet<Row>, String> {
+        let mut rows = BTreeSet::new();
+        for (name, vk) in authors {
+            for l in logs {
+                let entries = <SqliteStore as LogStore<Op, VerifyingKey, String, u32, Hash>>::get_log_entries(
+                    &self.store, vk, l, None, None,
+                )
+                .await
+                .map_err(|e| e.to_string())?;
+                for (op, _) in entries.unwrap_or_default() {
+                    let key = world
+                        .by_hash
+                        .get(&op.hash)
+                        .map(|i| i.key.clone())
+                        .unwrap_or_else(|| format!("unknown|{}", op.hash.to_hex()));
+                    rows.insert(Row {
+                        key,
+                        a: name.clone(),
+                        l: l.clone(),
+                        seq: op.header.seq_num,
+                        prune: op.header.extensions.prune,
+                        hash: op.hash,
+                        backlink: op.header.backlink,
+                    });
+                }
+            }
+        }
+        Ok(rows)
+    }
+
+    pub async fn total_rows(&self) -> Result<i64, String> {
+        self.store
+            .execute(async |pool| {
+                let n: (i64,) = sqlx::query_as("SELECT COUNT(*) FROM operations_v1").fetch_one(pool).await?;
+                Ok(n.0)
+            })
+            .await
+            .map_err(|e| e.to_string())
+    }
+
+    pub async fn has(&self, hash: &Hash) -> Result<bool, String> {
+        <SqliteStore as OperationStore<Op, Hash>>::has_operation(&self.store, hash).await.map_err(|e| e.to_string())
+    }
+}
+
+fn keys_of(rows: &BTreeSet<Row>) -> BTreeSet<String> {
+    rows.iter().map(|r| r.key.clone()).collect()
+}
+
+fn height(rows: &BTreeSet<Row>, a: &str, l: &str) -> i64 {
+    rows.iter().filter(|r| r.a == a && r.l == l).map(|r| r.seq as i64).max().unwrap_or(-1)
+}
+
+fn logs_of(rows: &BTreeSet<Row>) -> BTreeSet<(String, String)> {
+    rows.iter().map(|r| (r.a.clone(), r.l.clone())).collect()
+}
+
+// ------------------------------------------------------------------------------------------
+// The properties, evaluated on the implementation's own observables
+
+/// A finding: (property, signature, detail).
+pub type Finding = (&'static str, String, String);
+
+#[derive(Default)]
+pub struct Judge {
+    /// prune points (author, log, seq) the implementation itself INSERTED (C05)
+    ingested_prunes: BTreeSet<(String, String, u32)>,
+    /// prune points whose LogPrune ran as the effect of an accepted valid operation (C05)
+    applied: BTreeSet<(String, String, u32)>,
+}
+
+impl Judge {
+    /// After `ingest_operation` returned `res` for the operation described by `info`.
+    pub fn after_ingest(&mut self, info: &Info, cls: &str, op: &Op, res: Res, before: &BTreeSet<Row>, after: &BTreeSet<Row>, has_after: bool) -> Vec<Finding> {
+        let mut f: Vec<Finding> = Vec::new();
+        // C01
+        if !info.wf && res != Res::Rejected {
+            f.push(("C01", format!("invalid-operation-accepted:{cls}"), format!("{} ({cls}) must fail validation but ingest returned {}", info.key, res.name())));
+        }
+        if res == Res::Rejected && before != after {
+            f.push(("C01", "rejected-operation-changed-store".into(), format!("{} was rejected but the store changed: {:?} -> {:?}", info.key, keys_of(before), keys_of(after))));
+        }
+        if res == Res::Rejected && has_after && !before.iter().any(|r| r.hash == op.hash) {
+            f.push(("C01", "rejected-operation-is-stored".into(), format!("{} was rejected but has_operation is true", info.key)));
+        }
+        if res != Res::Rejected && !has_after {
+            f.push(("C01", "accepted-operation-not-stored".into(), format!("{} was reported {} but has_operation is false", info.key, res.name())));
+        }
+        // C04: ingest never deletes
+        if before.difference(after).next().is_some() {
+            f.push(("C04", "ingest-deleted-entries".into(), format!("ingest of {} removed {:?}", info.key, before.difference(after).map(|r| r.key.clone()).collect::<Vec<_>>())));
+        }
+        // C03
+        for (a, l) in logs_of(before) {
+            if height(after, &a, &l) < height(before, &a, &l) {
+                f.push(("C03", "height-decreased".into(), format!("height of {a}/{l} went from {} to {}", height(before, &a, &l), height(after, &a, &l))));
+            }
+        }
+        if res == Res::Inserted {
+            let log: Vec<&Row> = before.iter().filter(|r| r.a == info.a && r.l == info.l).collect();
+            let h = log.iter().map(|r| r.seq as i64).max().unwrap_or(-1);
+            let s = op.header.seq_num as i64;
+            let flagged = op.header.extensions.prune;
+            let non_extending = if log.is_empty() {
+                s > 0 && !flagged
+            } else if !flagged {
+                s != h + 1 || !log.iter().any(|r| r.seq as i64 == h && Some(r.hash) == op.header.backlink)
+            } else {
+                s <= h
+            };
+            if non_extending {
+                f.push(("C03", "non-extending-operation-accepted".into(), format!("{} (seq {s}, prune flag {flagged}) was inserted into a log of height {h}", info.key)));
+            }
+            if after.iter().filter(|r| r.a == info.a && r.l == info.l && r.seq == op.header.seq_num).count() > 1 {
+                f.push(("C03", "duplicate-seq".into(), format!("{}/{} holds two entries with seq {}", info.a, info.l, s)));
+            }
+            // C05
+            if let Some(p) = self.ingested_prunes.iter().find(|p| p.0 == info.a && p.1 == info.l && op.header.seq_num < p.2) {
+                f.push(("C05", "stored-below-prune-point".into(), format!("{} (seq {}) was stored although a prune-flagged operation at seq {} of the same log had been ingested before", info.key, s, p.2)));
+            }
+            if flagged {
+                self.ingested_prunes.insert((info.a.clone(), info.l.clone(), op.header.seq_num));
+            }
+        }
+        f.extend(self.chain_check(after));
+        f
+    }
+
+    /// Every stored entry with seq > 0 and no prune flag backlinks to the stored entry before it.
+    fn chain_check(&self, rows: &BTreeSet<Row>) -> Vec<Finding> {
+        let mut f = Vec::new();
+        for r in rows {
+            if r.seq > 0 && !r.prune {
+                let ok = rows.iter().any(|p| p.a == r.a && p.l == r.l && p.seq + 1 == r.seq && Some(p.hash) == r.backlink);
+                if !ok {
+                    f.push(("C03", "broken-chain".into(), format!("stored entry {} (seq {}, no prune flag) has no stored predecessor it backlinks to", r.key, r.seq)));
+                }
+            }
+        }
+        for p in &self.applied {
+            if let Some(r) = rows.iter().find(|r| r.a == p.0 && r.l == p.1 && r.seq < p.2) {
+                f.push(("C05", "entry-below-applied-prune-point".into(), format!("{} (seq {}) is stored below the applied prune point {}", r.key, r.seq, p.2)));
+            }
+        }
+        f
+    }
+
+    /// After the LogPrune stage ran for the event of `info` whose ingest result was `res`.
+    /// `ran` = the args were PruneEntriesUntil (harness-level knowledge; None if unknown).
+    pub fn after_prune(&mut self, info: &Info, res: Res, before: &BTreeSet<Row>, after: &BTreeSet<Row>) -> Vec<Finding> {
+        let mut f: Vec<Finding> = Vec::new();
+        let deleted: Vec<&Row> = before.difference(after).collect();
+        let justified = info.wf && info.prune && res != Res::Rejected;
+        if !deleted.is_empty() {
+            if !justified {
+                let sig = if res == Res::Rejected { "prune-after-failed-ingest" } else { "prune-without-valid-prune-operation" };
+                f.push(("C04", sig.into(), format!("{} (valid: {}, prune flag: {}, ingest: {}) deleted {:?}", info.key, info.wf, info.prune, res.name(), deleted.iter().map(|r| r.key.clone()).collect::<Vec<_>>())));
+            } else if deleted.iter().any(|r| r.a != info.a || r.l != info.l || r.seq >= info.seq) {
+                f.push(("C04", "prune-outside-own-log-prefix".into(), format!("{} (prune point {}/{}/{}) deleted {:?}", info.key, info.a, info.l, info.seq, deleted.iter().map(|r| r.key.clone()).collect::<Vec<_>>())));
+            }
+        }
+        if justified {
+            if let Some(r) = after.iter().find(|r| r.a == info.a && r.l == info.l && r.seq < info.seq) {
+                f.push(("C04", "prune-incomplete".into(), format!("after the prune point {}/{}/{} was processed {} (seq {}) is still stored", info.a, info.l, info.seq, r.key, r.seq)));
+            }
+            self.applied.insert((info.a.clone(), info.l.clone(), info.seq));
+        }
+        if after.difference(before).next().is_some() {
+            f.push(("C04", "prune-added-entries".into(), "LogPrune added rows".into()));
+        }
+        for (a, l) in logs_of(before) {
+            if height(after, &a, &l) < height(before, &a, &l) {
+                f.push(("C03", "height-decreased".into(), format!("height of {a}/{l} went from {} to {}", height(before, &a, &l), height(after, &a, &l))));
+            }
+        }
+        f.extend(self.chain_check(after));
+        f
+    }
+}
+
+// ------------------------------------------------------------------------------------------
+// replay: spec -> impl
+
+struct Pending {
+    op: Op,
+    info: Info,
+    cls: String,
+    log: String,
+}
+
+fn expected_store(step: &Value) -> BTreeSet<String> {
+    step["store"].as_array().map(|a| a.iter().map(idkey).collect()).unwrap_or_default()
+}
+
+struct Expand {
+    every: usize,
+    flips: usize,
+    all_bits: bool,
+    counter: usize,
+    rng: Rng,
+}
+
+fn replay(args: &Args) {
+    let behaviours = read_ndjson(args.input.as_ref().expect("--in"));
+    let mut out = Outcome::new(
+        args,
+        "every TLC-exported behaviour of MC_OpLog executed on ingest_operation + LogPrune over a fresh in-memory SqliteStore \
+         (real keys, signatures, CBOR); result of every Ingest/Prune step and the stored set after it compared with the spec, \
+         and C01/C03/C04/C05 evaluated on the implementation's own before/after store; distinct = behaviours containing a \
+         rejected, deduplicated or pruning step, keyed by world + step list; expansion = byte-level mutations of a valid \
+         operation (counter `expansion_mutations`), each must be rejected with the store unchanged",
+    );
+    let rt = tokio::runtime::Builder::new_current_thread().enable_all().build().expect("runtime");
+    let mut expand = Expand {
+        every: args.extra_usize("expand_every", 0),
+        flips: args.extra_usize("flips", 200),
+        all_bits: args.extra.get("all_bits").map(|v| v == "1").unwrap_or(false),
+        counter: 0,
+        rng: Rng::new(args.seed ^ 0xE4A1),
+    };
+    let mut imp: Option<Impl> = None;
+    for (bi, b) in behaviours.iter().enumerate() {
+        out.eval();
+        if imp.is_none() {
+            imp = Some(rt.block_on(Impl::new()));
+        }
+        let r = catch(|| rt.block_on(async {
+            let imp = imp.as_ref().unwrap();
+            imp.wipe().await?;
+            replay_one(imp, b, bi, &mut out, &mut expand).await
+        }));
+        match r {
+            Ok(Ok(())) => {}
+            Ok(Err(e)) => {
+                out.violation("*", "store-error", format!("store / harness error: {e}"), b.clone());
+                imp = None; // a transaction may be left open: start from a fresh store
+            }
+            Err(p) => {
+                out.violation("*", "panic", format!("the code under test panicked: {p}"), b.clone());
+                imp = None;
+            }
+        }
+    }
+    out.write(args);
+}
+
+fn report(out: &mut Outcome, findings: Vec<Finding>, b: &Value, step: usize) {
+    for (prop, sig, detail) in findings {
+        out.violation(prop, &sig, format!("step {step}: {detail}"), b.clone());
+    }
+}
+
+async fn replay_one(imp: &Impl, b: &Value, bi: usize, out: &mut Outcome, expand: &mut Expand) -> Result<(), String> {
+    let mut world = World::new(format!("b{bi}"));
+    for p in b["world"].as_array().cloned().unwrap_or_default() {
+        world.prune.insert((
+            p[0].as_str().expect("a").to_string(),
+            p[1].as_str().expect("l").to_string(),
+            p[2].as_u64().expect("s") as u32,
+        ));
+    }
+    let steps = b["steps"].as_array().expect("steps");
+    // all author names and logs of this behaviour (so that the projection sees every row)
+    let mut logs: BTreeSet<String> = BTreeSet::new();
+    for st in steps {
+        if st["act"] == "Submit" {
+            world.key(st["item"]["a"].as_str().expect("a"));
+            world.key(st["base"]["a"].as_str().expect("base a"));
+            logs.insert(st["item"]["l"].as_str().expect("l").to_string());
+        }
+    }
+    let logs: Vec<String> = logs.into_iter().collect();
+    let authors: Vec<(String, VerifyingKey)> = world.author_names().into_iter().map(|n| { let vk = world.vk(&n); (n, vk) }).collect();
+
+    let mut judge = Judge::default();
+    let mut in_q: VecDeque<Pending> = VecDeque::new();
+    let mut prune_q: VecDeque<(Pending, Res)> = VecDeque::new();
+    let mut cur = imp.project(&world, &authors, &logs).await?;
+    let mut nontrivial = false;
+
+    for (si, st) in steps.iter().enumerate() {
+        match st["act"].as_str() {
+            Some("Submit") => {
+                let item = &st["item"];
+                let cls = st["cls"].as_str().expect("cls").to_string();
+                let base = &st["base"];
+                let base_op = world.honest(base["a"].as_str().unwrap(), base["l"].as_str().unwrap(), base["seq"].as_u64().unwrap() as u32);
+                let tag = item["id"]["v"].as_str().unwrap_or("");
+                let param = tag.split_once(':').map(|x| x.1).unwrap_or("");
+                let op = world.concretise(&cls, param, &base_op, (bi * 31 + si) as u64);
+                let info = Info {
+                    key: idkey(&item["id"]),
+                    a: item["a"].as_str().unwrap().to_string(),
+                    l: item["l"].as_str().unwrap().to_string(),
+                    seq: item["seq"].as_u64().unwrap() as u32,
+                    prune: item["prune"].as_bool().unwrap(),
+                    bl: if item["bl"]["seq"].as_i64() == Some(-1) { None } else { Some(idkey(&item["bl"])) },
+                    wf: item["wf"].as_bool().unwrap(),
+                };
+                // the concrete operation must carry exactly the header fields the spec item has
+                let a_name = world.name_of(&op.header.verifying_key);
+                if a_name != info.a || op.header.seq_num != info.seq || op.header.extensions.prune != info.prune {
+                    eprintln!("harness bug: concretisation of {cls} does not match the item: {item}");
+                    std::process::exit(2);
+                }
+                if cls != "Honest" {
+                    world.register(&op, info.clone());
+                }
+                out.count(&format!("class:{cls}"));
+                in_q.push_back(Pending { op, log: info.l.clone(), info, cls });
+            }
+            Some("Ingest") => {
+                let p = in_q.pop_front().expect("spec ingests only what was submitted");
+                if p.cls == "Honest" && expand.every > 0 {
+                    expand.counter += 1;
+                    if expand.counter % expand.every == 0 {
+                        expansion(imp, &mut world, &p, &cur, &authors, &logs, out, expand, b, si).await?;
+                    }
+                }
+                let res = imp.ingest(&p.op, &p.log).await?;
+                let after = imp.project(&world, &authors, &logs).await?;
+                let has = imp.has(&p.op.hash).await?;
+                out.count(&format!("ingest:{}", res.name()));
+                let mut findings = judge.after_ingest(&p.info, &p.cls, &p.op, res, &cur, &after, has);
+                let want = st["res"].as_str().expect("res");
+                if want != res.name() {
+                    findings.push(("*", "ingest-result-differs-from-spec".into(), format!("ingest of {} returned {}, the specification says {}", p.info.key, res.name(), want)));
+                }
+                let want_store = expected_store(st);
+                if keys_of(&after) != want_store {
+                    findings.push(("*", "store-differs-from-spec".into(), format!("after ingest of {}: stored {:?}, the specification says {:?}", p.info.key, keys_of(&after), want_store)));
+                }
+                if after.len() as i64 != imp.total_rows().await? {
+                    findings.push(("C01", "stray-rows".into(), format!("operations_v1 holds {} rows but only {} are reachable through the logs of the known authors", imp.total_rows().await?, after.len())));
+                }
+                if res != Res::Inserted {
+                    nontrivial = true;
+                }
+                let bad = !findings.is_empty();
+                report(out, findings, b, si);
+                cur = after;
+                prune_q.push_back((p, res));
+                if bad {
+                    return Ok(());
+                }
+            }
+            Some("Prune") => {
+                let (p, res) = prune_q.pop_front().expect("spec prunes only what was ingested");
+                let active = st["active"].as_bool().expect("active");
+                let args = if active {
+                    Some((world.vk(st["a"].as_str().unwrap()), st["l"].as_str().unwrap().to_string(), st["until"].as_u64().unwrap() as u32))
+                } else {
+                    None
+                };
+                let got = imp.log_prune(args).await?;
+                let after = imp.project(&world, &authors, &logs).await?;
+                let mut findings = judge.after_prune(&p.info, res, &cur, &after);
+                let want = st["pruned"].as_u64().expect("pruned");
+                match (active, got) {
+                    (true, Some(n)) if n == want => {}
+                    (false, None) => {}
+                    (_, got) => findings.push(("*", "prune-result-differs-from-spec".into(), format!("LogPrune for {} returned {:?}, the specification says active={active} pruned={want}", p.info.key, got))),
+                }
+                let want_store = expected_store(st);
+                if keys_of(&after) != want_store {
+                    findings.push(("*", "store-differs-from-spec".into(), format!("after LogPrune of {}: stored {:?}, the specification says {:?}", p.info.key, keys_of(&after), want_store)));
+                }
+                if got.unwrap_or(0) > 0 {
+                    nontrivial = true;
+                    out.count("prune:deleted");
+                }
+                let bad = !findings.is_empty();
+                report(out, findings, b, si);
+                cur = after;
+                if bad {
+                    return Ok(());
+                }
+            }
+            other => {
+                eprintln!("unknown step {other:?}");
+                std::process::exit(2);
+            }
+        }
+    }
+    if nontrivial {
+        out.mark_distinct(format!("{}|{}", b["world"], steps.iter().map(|s| format!("{}{}", s["act"].as_str().unwrap_or(""), s["item"]["id"])).collect::<Vec<_>>().join(",")));
+    }
+    out.sample(json!({"kind": "oplog", "world": b["world"], "steps": steps.len(), "first": steps.first()}));
+    Ok(())
+}
+
+// ------------------------------------------------------------------------------------------
+// C01: byte-level expansion of the spec's abstract "tampered copy"
+
+/// All single mutations of the valid operation `p.op` tried at the current store state.
+pub fn mutations(world: &mut World, op: &Op, flips: usize, all_bits: bool, rng: &mut Rng) -> Vec<(String, Option<Op>)> {
+    let mut out: Vec<(String, Option<Op>)> = Vec::new();
+    let base = op.header.clone();
+    let author = world.name_of(&base.verifying_key);
+    let other_hash = Hash::digest(b"some other hash");
+    let mut push = |name: String, h: Header<Ext>, body: Option<Body>| {
+        out.push((name, Some(Operation { hash: h.hash(), header: h, body })));
+    };
+    // --- header fields, signature untouched
+    for v in [0u16, 2, 255, u16::MAX] {
+        let mut h = base.clone();
+        h.version = v;
+        push(format!("version={v}"), h, op.body.clone());
+    }
+    for other in ["zz-foreign-1", "zz-foreign-2"] {
+        let mut h = base.clone();
+        h.verifying_key = world.vk(other);
+        push(format!("verifying_key={other}"), h, op.body.clone());
+    }
+    for bit in [0usize, 7, 100, 255] {
+        let mut k = *base.verifying_key.as_bytes();
+        k[bit / 8] ^= 1 << (bit % 8);
+        if let Ok(vk) = VerifyingKey::from_bytes(&k) {
+            let mut h = base.clone();
+            h.verifying_key = vk;
+            push(format!("verifying_key^bit{bit}"), h, op.body.clone());
+        }
+    }
+    {
+        let mut h = base.clone();
+        h.payload_size = h.payload_size.wrapping_add(1);
+        push("payload_size+1".into(), h, op.body.clone());
+        let mut h = base.clone();
+        h.payload_size = if h.payload_size > 0 { h.payload_size - 1 } else { 7 };
+        push("payload_size-1".into(), h, op.body.clone());
+        let mut h = base.clone();
+        h.payload_hash = Some(other_hash);
+        push("payload_hash=other".into(), h, op.body.clone());
+        let mut h = base.clone();
+        h.payload_hash = if h.payload_hash.is_some() { None } else { Some(other_hash) };
+        push("payload_hash toggled".into(), h, op.body.clone());
+    }
+    for s in [base.seq_num.wrapping_add(1), base.seq_num.wrapping_sub(1), if base.seq_num == 0 { 5 } else { 0 }, u32::MAX] {
+        if s != base.seq_num {
+            let mut h = base.clone();
+            h.seq_num = s;
+            push(format!("seq_num={s}"), h, op.body.clone());
+        }
+    }
+    {
+        let mut h = base.clone();
+        h.backlink = Some(other_hash);
+        push("backlink=other".into(), h, op.body.clone());
+        if base.backlink.is_some() {
+            let mut h = base.clone();
+            h.backlink = None;
+            push("backlink removed".into(), h, op.body.clone());
+        }
+        let mut h = base.clone();
+        h.extensions.prune = !h.extensions.prune;
+        push("prune flag flipped".into(), h, op.body.clone());
+        let mut h = base.clone();
+        h.extensions.log = format!("{}x", h.extensions.log);
+        push("extension log changed".into(), h, op.body.clone());
+    }
+    // --- signature
+    {
+        let mut h = base.clone();
+        h.signature = None;
+        push("signature removed".into(), h, op.body.clone());
+        let sig = base.signature.expect("signed").to_bytes();
+        let bits: Vec<usize> = if all_bits { (0..512).collect() } else { (0..64).map(|i| i * 8 + (i % 8)).collect() };
+        for bit in bits {
+            let mut s = sig;
+            s[bit / 8] ^= 1 << (bit % 8);
+            let mut h = base.clone();
+            h.signature = Some(Signature::from_bytes(&s));
+            push(format!("signature^bit{bit}"), h, op.body.clone());
+        }
+        // signed by a foreign key, still claiming the original author
+        let mut h = base.clone();
+        h.sign(&world.key("zz-foreign-1"));
+        push("re-signed with a foreign key".into(), h, op.body.clone());
+        // signature of another valid operation of the same author
+        let mut h = base.clone();
+        let mut other = base.clone();
+        other.seq_num = other.seq_num.wrapping_add(17);
+        other.sign(&world.key(&author));
+        h.signature = other.signature;
+        push("signature of another operation".into(), h, op.body.clone());
+    }
+    // --- signed by the author but malformed (one validate_header / validate_operation branch each)
+    for cls in ["BadVersion", "PayloadInfoInconsistent", "BacklinkSeqInconsistent"] {
+        let m = world.concretise(cls, "", op, rng.next_u64());
+        out.push((format!("signed malformed: {cls}"), Some(m)));
+    }
+    let mut push = |name: String, h: Header<Ext>, body: Option<Body>| {
+        out.push((name, Some(Operation { hash: h.hash(), header: h, body })));
+    };
+    // --- body
+    match &op.body {
+        Some(body) => {
+            let bytes = body.to_bytes();
+            let positions: Vec<usize> = if all_bits { (0..bytes.len() * 8).collect() } else { (0..bytes.len()).map(|i| i * 8 + (i % 8)).collect() };
+            for bit in positions {
+                let mut m = bytes.clone();
+                m[bit / 8] ^= 1 << (bit % 8);
+                push(format!("body^bit{bit}"), base.clone(), Some(Body::new(&m)));
+            }
+            push("body truncated".into(), base.clone(), Some(Body::new(&bytes[..bytes.len() - 1])));
+            let mut m = bytes.clone();
+            m.push(0);
+            push("body extended".into(), base.clone(), Some(Body::new(&m)));
+            push("body emptied".into(), base.clone(), Some(Body::new(b"")));
+        }
+        None => {
+            push("foreign body attached".into(), base.clone(), Some(Body::new(b"not the committed payload")));
+            if base.payload_size > 0 {
+                let n = base.payload_size as usize;
+                push("same-size foreign body attached".into(), base.clone(), Some(Body::new(&vec![0x41; n])));
+            }
+        }
+    }
+    // --- single-bit flips of the ENCODED header (what a network peer can do to the bytes)
+    let enc = base.to_bytes();
+    let nbits = enc.len() * 8;
+    let positions: Vec<usize> = if all_bits { (0..nbits).collect() } else { (0..flips).map(|_| rng.below(nbits as u64) as usize).collect() };
+    for bit in positions {
+        let mut m = enc.clone();
+        m[bit / 8] ^= 1 << (bit % 8);
+        match decode_cbor::<Header<Ext>, _>(&m[..]) {
+            Ok(h) => {
+                if h == base {
+                    out.push((format!("encoded^bit{bit} decodes to the same header"), None));
+                } else {
+                    out.push((format!("encoded^bit{bit}"), Some(Operation { hash: h.hash(), header: h, body: op.body.clone() })));
+                }
+            }
+            Err(_) => out.push((format!("encoded^bit{bit} undecodable"), None)),
+        }
+    }
+    out
+}
+
+#[allow(clippy::too_many_arguments)]
+async fn expansion(imp: &Impl, world: &mut World, p: &Pending, cur: &BTreeSet<Row>, authors: &[(String, VerifyingKey)], logs: &[String], out: &mut Outcome, expand: &mut Expand, b: &Value, si: usize) -> Result<(), String> {
+    let rows_before = imp.total_rows().await?;
+    let muts = mutations(world, &p.op, expand.flips, expand.all_bits, &mut expand.rng);
+    out.count("expansion_points");
+    for (name, m) in muts {
+        let Some(m) = m else {
+            out.count(if name.ends_with("undecodable") { "expansion_rejected_at_decode" } else { "expansion_noop_mutations" });
+            continue;
+        };
+        out.count("expansion_mutations");
+        let log = m.header.extensions.log.clone();
+        let res = imp.ingest(&m, &log).await?;
+        let rows_after = imp.total_rows().await?;
+        let has = imp.has(&m.hash).await?;
+        if res != Res::Rejected || rows_after != rows_before || has {
+            out.violation(
+                "C01",
+                "tampered-operation-accepted",
+                format!("step {si}: mutation `{name}` of the valid operation {} : ingest returned {}, rows {} -> {}, has_operation(mutant) = {}", p.info.key, res.name(), rows_before, rows_after, has),
+                json!({"behaviour": b, "step": si, "mutation": name}),
+            );
+            return Ok(());
+        }
+    }
+    // nothing moved: the full projection is what it was
+    let after = imp.project(world, authors, logs).await?;
+    if &after != cur {
+        out.violation("C01", "rejected-operation-changed-store".into(), format!("step {si}: the store changed during the rejected mutations of {}", p.info.key), json!({"behaviour": b, "step": si}));
+    }
+    Ok(())
+}
+
+// ------------------------------------------------------------------------------------------
+// record: impl -> spec
+
+fn info_json(i: &Info) -> Value {
+    let id: Vec<&str> = i.key.split('|').collect();
+    let bl = match &i.bl {
+        Some(k) => {
+            let p: Vec<&str> = k.split('|').collect();
+            json!({"a": p[0], "l": p[1], "seq": p[2].parse::<i64>().unwrap_or(-1), "v": p[3]})
+        }
+        None => json!({"a": "", "l": "", "seq": -1, "v": ""}),
+    };
+    json!({
+        "id": {"a": id[0], "l": id[1], "seq": id[2].parse::<i64>().unwrap_or(-1), "v": id[3]},
+        "a": i.a, "l": i.l, "seq": i.seq, "prune": i.prune, "bl": bl, "wf": i.wf,
+    })
+}
+
+fn log_scalars(rows: &BTreeSet<Row>, a: &str, l: &str) -> Value {
+    let seqs: Vec<u32> = rows.iter().filter(|r| r.a == a && r.l == l).map(|r| r.seq).collect();
+    json!({
+        "count": seqs.len(),
+        "height": seqs.iter().max().map(|s| *s as i64).unwrap_or(-1),
+        "low": seqs.iter().min().map(|s| *s as i64).unwrap_or(-1),
+        "total": rows.len(),
+    })
+}
+
+const FORGE_CLASSES: &[&str] = &[
+    "BadSig", "BadVersion", "PayloadInfoInconsistent", "BacklinkSeqInconsistent", "BodyMismatch",
+    "ClaimOtherAuthor", "PruneFlipped", "SeqChanged", "BacklinkChanged", "ForgedPrune", "Resigned",
+];
+
+/// Seeded random multi-author histories: permutations, drops, duplicates, forged copies, several
+/// prune points, late old prune-flagged operations, up to three events in flight.
+fn record(args: &Args) {
+    let mut rng = Rng::new(args.seed);
+    let n = if args.n > 0 { args.n } else { 50 };
+    let mut trace = TraceWriter::create(args.out.as_ref().expect("--out"));
+    let mut out = Outcome::new(
+        args,
+        "seeded random histories (2-4 honest authors, 1-2 attacker keys, 1-2 logs, chains up to 14 with several prune points; \
+         shuffled delivery with windows, duplicates, drops, forged copies of every class, late old prune-flagged operations, \
+         up to 3 events in flight) on ingest_operation + LogPrune over SqliteStore; one event per spec action",
+    );
+    let rt = tokio::runtime::Builder::new_current_thread().enable_all().build().expect("runtime");
+    let mut imp: Option<Impl> = None;
+    for run in 0..n {
+        out.eval();
+        let seed = rng.next_u64();
+        if imp.is_none() {
+            imp = Some(rt.block_on(Impl::new()));
+        }
+        let r = catch(|| rt.block_on(async {
+            let imp = imp.as_ref().unwrap();
+            imp.wipe().await?;
+            record_one(imp, run, seed, &mut trace, &mut out).await
+        }));
+        match r {
+            Ok(Ok(())) => {}
+            Ok(Err(e)) => {
+                out.violation("*", "store-error", format!("store / harness error: {e}"), json!({"run": run, "seed": seed.to_string()}));
+                imp = None;
+            }
+            Err(p) => {
+                out.violation("*", "panic", format!("the code under test panicked: {p}"), json!({"run": run, "seed": seed.to_string()}));
+                imp = None;
+            }
+        }
+    }
+    let (events, runs) = trace.finish();
+    out.set_trace(events, runs);
+    out.write(args);
+}
+
+async fn record_one(imp: &Impl, run: usize, seed: u64, trace: &mut TraceWriter, out: &mut Outcome) -> Result<(), String> {
+    let mut rng = Rng::new(seed);
+    let mut world = World::new(format!("r{run}/{seed}"));
+    let n_auth = rng.range(2, 4);
+    let n_mal = rng.range(1, 2);
+    let n_logs = rng.range(1, 2);
+    let honest: Vec<String> = (1..=n_auth).map(|i| format!("a{i}")).collect();
+    let mallory: Vec<String> = (1..=n_mal).map(|i| format!("mx{i}")).collect();
+    let logs: Vec<String> = (1..=n_logs).map(|i| format!("l{i}")).collect();
+    // chains and prune points
+    let mut chain_len: BTreeMap<(String, String), u32> = BTreeMap::new();
+    for a in &honest {
+        for l in &logs {
+            let len = rng.range(1, 14) as u32;
+            chain_len.insert((a.clone(), l.clone()), len);
+            for s in 0..len {
+                if rng.chance(1, 4) {
+                    world.prune.insert((a.clone(), l.clone(), s));
+                }
+            }
+        }
+    }
+    for n in honest.iter().chain(mallory.iter()) {
+        world.key(n);
+    }
+    let authors: Vec<(String, VerifyingKey)> = world.author_names().into_iter().map(|n| { let vk = world.vk(&n); (n, vk) }).collect();
+
+    // delivery plan: honest operations in a windowed shuffle, with drops, duplicates, late copies
+    let mut plan: Vec<(String, String, u32)> = Vec::new();
+    for ((a, l), len) in &chain_len {
+        for s in 0..*len {
+            if rng.chance(1, 10) {
+                continue; // dropped
+            }
+            plan.push((a.clone(), l.clone(), s));
+            if rng.chance(1, 8) {
+                plan.push((a.clone(), l.clone(), s)); // duplicate
+            }
+        }
+    }
+    // windowed shuffle: mostly in order per log, sometimes far out of order
+    let mut keyed: Vec<(i64, (String, String, u32))> = plan
+        .into_iter()
+        .map(|p| {
+            let jitter = match rng.below(10) {
+                0 => rng.below(40) as i64 - 20,
+                1..=3 => rng.below(7) as i64 - 3,
+                _ => 0,
+            };
+            (p.2 as i64 * 2 + jitter, p)
+        })
+        .collect();
+    keyed.sort_by_key(|k| k.0);
+    let mut plan: Vec<(String, String, u32)> = keyed.into_iter().map(|k| k.1).collect();
+    // late, old prune-flagged operations (the C05 situation) and late old plain operations
+    let flagged: Vec<(String, String, u32)> = world.prune.iter().cloned().collect();
+    for p in &flagged {
+        if rng.chance(1, 2) {
+            plan.push(p.clone());
+        }
+    }
+    for _ in 0..rng.below(4) {
+        let ((a, l), len) = chain_len.iter().nth(rng.below(chain_len.len() as u64) as usize).unwrap();
+        plan.push((a.clone(), l.clone(), rng.below(*len as u64) as u32));
+    }
+
+    trace.event(json!({"ev": "Reset", "run": run, "seed": seed.to_string()}));
+    let mut judge = Judge::default();
+    let mut in_q: VecDeque<Pending> = VecDeque::new();
+    let mut prune_q: VecDeque<(Pending, Res)> = VecDeque::new();
+    let mut cur = imp.project(&world, &authors, &logs).await?;
+    let mut forged_n = 0usize;
+    let mut plan: VecDeque<(String, String, u32)> = plan.into_iter().collect();
+    let case = json!({"run": run, "seed": seed.to_string()});
+
+    while !plan.is_empty() || !in_q.is_empty() || !prune_q.is_empty() {
+        let in_flight = in_q.len() + prune_q.len();
+        let choice = rng.below(3);
+        if !plan.is_empty() && in_flight < 3 && (choice == 0 || in_flight == 0) {
+            // Submit: the honest operation or a forged copy of it
+            let (a, l, s) = plan.pop_front().unwrap();
+            let base = world.honest(&a, &l, s);
+            let base_info = world.by_hash.get(&base.hash).cloned().unwrap();
+            let (op, info, cls) = if rng.chance(1, 4) {
+                let cls = *rng.pick(FORGE_CLASSES);
+                let mut info = base_info.clone();
+                let mut param = String::new();
+                match cls {
+                    "ClaimOtherAuthor" | "ForgedPrune" => {
+                        let mut others: Vec<&String> = honest.iter().chain(mallory.iter()).filter(|x| **x != a).collect();
+                        others.sort();
+                        param = (*rng.pick(&others)).clone();
+                        info.a = param.clone();
+                        if cls == "ForgedPrune" {
+                            info.prune = true;
+                        }
+                    }
+                    "Resigned" => {
+                        param = rng.pick(&mallory).clone();
+                        info.a = param.clone();
+                    }
+                    "SeqChanged" => {
+                        let len = chain_len[&(a.clone(), l.clone())] + 3;
+                        let mut ns = rng.below(len as u64) as u32;
+                        if ns == s {
+                            ns += 1;
+                        }
+                        param = ns.to_string();
+                        info.seq = ns;
+                    }
+                    "PruneFlipped" => info.prune = !info.prune,
+                    "BacklinkChanged" => info.bl = Some(format!("{a}|{l}|{s}|Elsewhere")),
+                    _ => {}
+                }
+                info.wf = cls == "Resigned";
+                forged_n += 1;
+                info.key = format!("{a}|{l}|{s}|{cls}:{forged_n}");
+                let op = world.concretise(cls, &param, &base, rng.next_u64());
+                world.register(&op, info.clone());
+                (op, info, cls.to_string())
+            } else {
+                (base, base_info, "Honest".to_string())
+            };
+            out.count(&format!("class:{cls}"));
+            trace.event(json!({"ev": "Submit", "cls": cls, "item": info_json(&info)}));
+            in_q.push_back(Pending { op, log: info.l.clone(), info, cls });
+        } else if !in_q.is_empty() && (choice == 1 || prune_q.is_empty()) {
+            let p = in_q.pop_front().unwrap();
+            let res = imp.ingest(&p.op, &p.log).await?;
+            let after = imp.project(&world, &authors, &logs).await?;
+            let has = imp.has(&p.op.hash).await?;
+            out.count(&format!("ingest:{}", res.name()));
+            if res != Res::Inserted {
+                out.mark_distinct(format!("{run}:{}:{}", p.info.key, res.name()));
+            }
+            for (prop, sig, detail) in judge.after_ingest(&p.info, &p.cls, &p.op, res, &cur, &after, has) {
+                out.violation(prop, &sig, detail, case.clone());
+            }
+            if after.len() as i64 != imp.total_rows().await? {
+                out.violation("C01", "stray-rows", "operations_v1 holds rows that are not reachable through the known logs".into(), case.clone());
+            }
+            trace.event(json!({"ev": "Ingest", "res": res.name(), "a": p.info.a, "l": p.info.l, "log": log_scalars(&after, &p.info.a, &p.info.l)}));
+            cur = after;
+            prune_q.push_back((p, res));
+        } else if !prune_q.is_empty() {
+            let (p, res) = prune_q.pop_front().unwrap();
+            // the decision of the (repaired) pipeline: args only for a prune-flagged event whose ingest did not fail
+            let active = p.op.header.extensions.prune && res != Res::Rejected;
+            let args = if active { Some((p.op.header.verifying_key, p.log.clone(), p.op.header.seq_num)) } else { None };
+            let got = imp.log_prune(args).await?;
+            let after = imp.project(&world, &authors, &logs).await?;
+            for (prop, sig, detail) in judge.after_prune(&p.info, res, &cur, &after) {
+                out.violation(prop, &sig, detail, case.clone());
+            }
+            if got.unwrap_or(0) > 0 {
+                out.count("prune:deleted");
+                out.mark_distinct(format!("{run}:{}:pruned", p.info.key));
+            }
+            trace.event(json!({"ev": "Prune", "active": active, "a": p.info.a, "l": p.info.l, "until": p.info.seq,
+                               "pruned": got.unwrap_or(0), "log": log_scalars(&after, &p.info.a, &p.info.l)}));
+            cur = after;
+        }
+    }
+    // full snapshot at the end of the run
+    let ids: Vec<Value> = cur.iter().map(|r| {
+        let p: Vec<&str> = r.key.split('|').collect();
+        if p.len() == 4 { mkid(p[0], p[1], p[2].parse().unwrap_or(0), p[3]) } else { json!({"a": "?", "l": "?", "seq": -2, "v": r.key}) }
+    }).collect();
+    trace.event(json!({"ev": "Snapshot", "store": ids}));
+    out.sample(json!({"run": run, "seed": seed.to_string(), "stored": cur.len()}));
+    Ok(())
 }
